@@ -227,6 +227,39 @@ pub fn check_text(text: &str) -> Option<String> {
             return Some(format!("references to {}: reported at lines {:?} of the note, the blocks holding the links start at lines {:?}", target, got, want));
         }
     }
+    // document symbols of the note (its own headings and those of the notes it includes): every location names a
+    // heading line of the note its uri addresses
+    if let Ok(syms) = dump::catch(|| server.handle_document_symbols(DocumentSymbolParams { text_document: td.clone(), work_done_progress_params: Default::default(), partial_result_params: Default::default() })) {
+        for s in syms {
+            let k = act::key_of_uri(&s.location.uri);
+            let Some(t) = lib.get(&k) else { return Some(format!("document symbol {:?} points to {}, which is no note of the library", s.name, s.location.uri)) };
+            let l = s.location.range.start.line;
+            // line → plain text of the heading that starts there
+            let mut heads: std::collections::HashMap<u32, String> = Default::default();
+            let mut cur: Option<u32> = None;
+            for (ev, r) in Parser::new_ext(t, md::options()).into_offset_iter() {
+                match ev {
+                    Event::Start(Tag::Heading { .. }) => {
+                        cur = Some(lsp_pos(t, r.start).0);
+                        heads.insert(cur.unwrap(), String::new());
+                    }
+                    Event::End(pulldown_cmark::TagEnd::Heading(_)) => cur = None,
+                    Event::Text(x) | Event::Code(x) => {
+                        if let Some(c) = cur {
+                            heads.get_mut(&c).unwrap().push_str(&x);
+                        }
+                    }
+                    _ => {}
+                }
+            }
+            let squeeze = |x: &str| x.chars().filter(|c| !c.is_whitespace()).collect::<String>();
+            match heads.get(&l) {
+                None => return Some(format!("document symbol {:?} is located at {}:{}, which is not a heading line of that note ({:?})", s.name, k, l, t.split('\n').nth(l as usize))),
+                Some(h) if squeeze(h) != squeeze(&s.name) => return Some(format!("document symbol {:?} is located at {}:{}, where the heading {:?} is", s.name, k, l, h)),
+                _ => {}
+            }
+        }
+    }
     // code actions offered at a line operate on the block covering it: "Extract section" is only offered on a
     // heading line, the list conversions only on a line of a list
     // the lines of headings (ATX and setext) and of lists, from the oracle's own parser pass
